@@ -19,6 +19,15 @@ pub(crate) enum Timestamp {
 impl Timestamp {
     #[inline(always)]
     pub fn start(timer_kind: TimerKind) -> Self {
+        // Under a live simulation the OS timer reads the simulator's virtual
+        // clock too (see /verif/DESIGN.md §3, hook H9).
+        #[cfg(divan_verif)]
+        if let TimerKind::Os = timer_kind {
+            if let Some(os) = crate::verif::sim_instant_start() {
+                return Self::Os(os);
+            }
+        }
+
         fence::full_fence();
         let value = match timer_kind {
             TimerKind::Os => Self::Os(Instant::now()),
@@ -60,6 +69,13 @@ pub(crate) union UntaggedTimestamp {
 impl UntaggedTimestamp {
     #[inline(always)]
     pub fn start(timer_kind: TimerKind) -> Self {
+        #[cfg(divan_verif)]
+        if let TimerKind::Os = timer_kind {
+            if let Some(os) = crate::verif::sim_instant_start() {
+                return Self { os };
+            }
+        }
+
         fence::full_fence();
         let value = match timer_kind {
             TimerKind::Os => Self { os: Instant::now() },
@@ -71,6 +87,13 @@ impl UntaggedTimestamp {
 
     #[inline(always)]
     pub fn end(timer_kind: TimerKind) -> Self {
+        #[cfg(divan_verif)]
+        if let TimerKind::Os = timer_kind {
+            if let Some(os) = crate::verif::sim_instant_end() {
+                return Self { os };
+            }
+        }
+
         fence::compiler_fence();
         let value = match timer_kind {
             TimerKind::Os => Self { os: Instant::now() },
